@@ -1004,10 +1004,12 @@ Proof.
   rewrite (ck_acquires f j k v p r b Hcall Hpost Hcase). cbn [key_of]. apply elem_of_app. right. left.
 Qed.
 
-(* NOTE ([_machine] lemmas): facts about the trusted, queue-less mutex machine of Model.v. Go's sync.RWMutex
-   also refuses new readers while a writer WAITS, and sync.Mutex.TryLock may fail on a free mutex with
-   queued waiters; the property ("free and uncontended") therefore needs the hypothesis [uncontended],
-   which SyncMap/Uncontended.v adds. Only those versions are property theorems. *)
+(* NOTE ([_machine] lemmas): facts about the trusted mutex machine of Model.v (one atomic step per mutex
+   operation, no queue of waiters). Go's sync.RWMutex also refuses new readers while a writer WAITS,
+   sync.Mutex.TryLock may fail on a free mutex with queued waiters, and RWMutex.TryLock/Unlock are not atomic;
+   the property ("free and uncontended") therefore needs the hypothesis [quiet] (nobody else at a
+   mutex-operation step of the key), which SyncMap/Uncontended.v adds. Only those versions are property
+   theorems. *)
 Theorem ck_trylock_succeeds_when_key_free_machine t ch c' f :
   top_frame c t = Some f -> (f_pc f = KM_TryLock \/ f_pc f = KRW_TryLock) ->
   (forall t2 b, (t2, key_of (f_call f), b) ∉ holders c) -> step c t ch = Some c' ->
